@@ -482,6 +482,7 @@ impl World {
                     self.log.now_ns(),
                     running,
                     woken,
+                    st.dflag.is_set() as i128,
                 ],
             ));
         }
